@@ -117,7 +117,7 @@ class Ctx:
         os.makedirs(d, exist_ok=True)
         return d
 
-    def run_cli(self, args, own_home=False, cwd=None, timeout=None, prefix=None):
+    def run_cli(self, args, own_home=False, cwd=None, timeout=None, prefix=None, stdout_to=None):
         # a sector-offset table damaged in place costs the reader ~25 s per file before it gives up (seen in the thorough MPQ sweep): generous budget
         timeout = timeout or (900 if self.thorough else 240)
         env = self.env
@@ -128,8 +128,13 @@ class Ctx:
             cmd = self.wrap(cmd)
         t = time.time()
         try:
-            p = subprocess.run(cmd, env=env, cwd=cwd or self.scratch, stdin=subprocess.DEVNULL, stdout=subprocess.PIPE, stderr=subprocess.PIPE, timeout=timeout)
-            rc, out, err = p.returncode, p.stdout, p.stderr
+            if stdout_to:
+                with open(stdout_to, "wb") as so:
+                    p = subprocess.run(cmd, env=env, cwd=cwd or self.scratch, stdin=subprocess.DEVNULL, stdout=so, stderr=subprocess.PIPE, timeout=timeout)
+                rc, out, err = p.returncode, b"", p.stderr
+            else:
+                p = subprocess.run(cmd, env=env, cwd=cwd or self.scratch, stdin=subprocess.DEVNULL, stdout=subprocess.PIPE, stderr=subprocess.PIPE, timeout=timeout)
+                rc, out, err = p.returncode, p.stdout, p.stderr
         except subprocess.TimeoutExpired as ex:
             rc, out, err = None, ex.stdout or b"", ex.stderr or b""
         return {"rc": rc, "out": _ANSI.sub("", out.decode("utf-8", "replace")), "err": err.decode("utf-8", "replace")[-1500:], "dt": time.time() - t}
@@ -297,6 +302,19 @@ def make_fileset(ctx, k):
         with open(p, "wb") as f:
             f.write(data)
         files.append({"name": nm, "path": p, "data": data, "cls": cls})
+    # every third set: one input is a symbolic link to a regular file kept elsewhere (a shared asset linked into the staging
+    # directory, after C20-r5m3): the archive member is the file's content under the link's name
+    if k % 3 == 2:
+        tdir = os.path.join(root, "link-targets")
+        os.makedirs(tdir, exist_ok=True)
+        data = gen_content(rnd, "mixed", 700 + k)
+        with open(os.path.join(tdir, "shared-asset.bin"), "wb") as f:
+            f.write(data)
+        lp = os.path.join(root, "linked.dat")
+        if os.path.lexists(lp):
+            os.remove(lp)
+        os.symlink(os.path.join(tdir, "shared-asset.bin"), lp)
+        files.append({"name": "linked.dat", "path": lp, "data": data, "cls": "mixed"})
     # every other set: an input whose file name contains characters that shells treat as patterns (brackets: `?` and `*` are
     # refused by the extraction guard as unsafe on other systems, so they cannot make a round trip), standing next to a file
     # the name would match if it were read as a pattern; the neighbour is itself an input in half of these sets (after C20-r6m1).
@@ -857,8 +875,20 @@ def slice_list_info(ctx, sink, archives):
         lst = (vget(views.get(str(a["idx"])), "list") == "ok") and views[str(a["idx"])]["list"]["names"] or []
         for flt in derived_filters(lst, a["idx"]):
             jobs.append((a, "list", "filter:" + flt, ["mpq", "list", a["path"], "--filter", flt]))
+        jobs.append((a, "list", "long", ["mpq", "list", a["path"], "--long"]))
         jobs.append((a, "info", "plain", ["mpq", "info", a["path"]]))
     outs = pmap(lambda j: ctx.run_cli(j[3]), jobs)
+    # the same reports with a standard output that accepts nothing (/dev/full: every write fails with ENOSPC, after C20-r5m1):
+    # a report that could not be delivered is a failed command - exit 0 says the reader got the listing
+    full_jobs = [(a, sub, args) for a in archives[:6] for sub, args in (("list", ["mpq", "list", a["path"]]), ("list", ["mpq", "list", a["path"], "--long"]), ("info", ["mpq", "info", a["path"]]),
+                                                                         ("tree", ["mpq", "tree", a["path"], "--no-color"]))]
+    full_outs = pmap(lambda j: ctx.run_cli(j[2], stdout_to="/dev/full"), full_jobs)
+    for (a, sub, args), r in zip(full_jobs, full_outs):
+        viols = []
+        if r["rc"] == 0 and vget(views.get(str(a["idx"])), "open") == "ok":
+            viols.append(("exit0-but-failed", f"`mpq {sub}` exited 0 although nothing it printed could be written (standard output = /dev/full)", {"cmd": short_cmd(args, ctx.scratch) + " > /dev/full", "stderr": r["err"][-300:]}))
+        res.add_counter("reports_into_a_full_device", 1)
+        sink.record("mpq", sub, "valid-stdout-full", "dev-full" + ("-long" if "--long" in args else ""), r, viols, replay={"slice": "B", "archive": a["idx"], "sub": sub, "opt": "dev-full"})
     for (a, sub, opt, args), r in zip(jobs, outs):
         view = views.get(str(a["idx"]))
         viols = []
@@ -879,6 +909,11 @@ def slice_list_info(ctx, sink, archives):
                     res.add_counter("list_filters_compared", 1)
                     res.add_counter("list_filters_selecting_" + ("nothing" if not names else "some" if len(names) < len(view["list"]["names"]) else "all"), 1)
                 lines = [l for l in r["out"].split("\n") if l != ""]
+                if opt == "long":
+                    # the detailed table: one row per listed name, the name in the first cell (after C20-r3m3)
+                    rows = [l for l in lines if l.startswith("| ")]
+                    lines = [l[2:].split(" | ")[0].rstrip() for l in rows[1:]]
+                    res.add_counter("list_long_rows_compared", len(lines))
                 if not names and lines and lines[0].startswith("No files found"):
                     lines = []
                 res.add_counter("list_comparisons", 1)
@@ -1449,6 +1484,16 @@ def slice_unreadable(ctx, sink, archives, gen_files):
         cmds.append((bad, "dbc", "analyze", "mmap", ["dbc", "analyze", valid["dbc"], "--mmap"]))
     # Archive::open on a directory scans for a header without end (C19's finding `open-archive-on-directory`): a hang is not an exit status, left out here
     cmds = [c for c in cmds if not (c[1] == "mpq" and c[0] == "unreadable-directory")]
+    # the global options are part of every invocation's configuration (after C20-r3m1): each failing command also runs with
+    # --quiet in front of the sub-command, every third one with -q behind it, every fifth one with -vv
+    extra = []
+    for i, (cls, fam, sub, opt, args) in enumerate(cmds):
+        extra.append((cls, fam, sub, opt + "+quiet", ["--quiet"] + args))
+        if i % 3 == 0:
+            extra.append((cls, fam, sub, opt + "+q-behind", args + ["-q"]))
+        if i % 5 == 0:
+            extra.append((cls, fam, sub, opt + "+vv", ["-vv"] + args))
+    cmds += extra
     outs = pmap(lambda c: ctx.run_cli(c[4]), cmds)
     for (cls, fam, sub, opt, args), r in zip(cmds, outs):
         why = {"unreadable-missing-file": "the input path does not exist", "unreadable-directory": "the input path is a directory"}.get(cls, "the option value / target cannot be honoured")
